@@ -24,7 +24,7 @@ THEOREMS = {
                                      'Chess.Props.C03_key_after_legal']),
             ('ChessVerif.Lemmas.OKDec', ['Chess.hypothesesHold_sound'])],
     'C04': [('ChessVerif.Props.C04', ['Chess.Props.C04_key_inv', 'Chess.Props.C04_scratch_is_init', 'Chess.Props.C04_same_pos_same_key', 'Chess.Props.C04_pawn_key'])],
-    'C05': [('ChessVerif.Props.C05', ['Chess.Props.C05_bestmove', 'Chess.Props.C05_bestmove_generated', 'Chess.Props.C05_pv_legal'])],
+    'C05': [('ChessVerif.Props.C05', ['Chess.Props.C05_bestmove', 'Chess.Props.C05_bestmove_generated', 'Chess.Props.C05_bestmove_legal', 'Chess.Props.C05_pv_legal'])],
     'C06': [('ChessVerif.Props.C06', ['Chess.Props.C06_one_bestmove', 'Chess.Props.C06_stop_not_lost', 'Chess.Props.C06_isready', 'Chess.Props.C06_race_free'])],
     'C07': [('ChessVerif.Props.C07', ['Chess.Props.C07_repetition_keys', 'Chess.Props.C07_repetition', 'Chess.Props.C07_rule50', 'Chess.Props.C07_draw', 'Chess.Props.C07_mate_stalemate', 'Chess.Props.C07_mate_stalemate_exact',
                                      'Chess.Props.C07_check', 'Chess.Props.C07_attacked', 'Chess.Props.C07_check_after_move', 'Chess.Props.C07_material', 'Chess.Props.C07_geometry']),
